@@ -87,3 +87,4 @@ open Csproto
 #print axioms Csproto.Bridge.PackedEncFuncs.EncodePackedUInt32_refines
 #print axioms Csproto.Bridge.PackedEncFuncs.EncodePackedSInt64_refines
 #print axioms Csproto.Bridge.PackedEncFuncs.EncodePackedSInt32_refines
+#print axioms Csproto.Bridge.EncoderFuncs.EncodeBytes_refines
